@@ -23,6 +23,16 @@ func (m *RecorderModel) ModelName() string { return "Recorder:" + m.name }
 func (m *RecorderModel) Invoke(x *Exec, method string, args []Value, c *ssa.CallCommon) Value {
 	x.Env.Calls = append(x.Env.Calls, RecordedCall{Name: m.name + "." + method, Args: args})
 	n := len(x.Env.Calls)
+	record := func(v Value) Value {
+		switch u := v.(type) {
+		case nil:
+		case TupleV:
+			x.Env.Calls[n-1].Rets = append([]Value{}, u...)
+		default:
+			x.Env.Calls[n-1].Rets = []Value{v}
+		}
+		return v
+	}
 	sig := c.Method.Type().(*types.Signature)
 	res := sig.Results()
 	mk := func(i int) Value {
@@ -79,13 +89,13 @@ func (m *RecorderModel) Invoke(x *Exec, method string, args []Value, c *ssa.Call
 	case 0:
 		return nil
 	case 1:
-		return mk(0)
+		return record(mk(0))
 	}
 	tv := make(TupleV, res.Len())
 	for i := range tv {
 		tv[i] = mk(i)
 	}
-	return tv
+	return record(tv)
 }
 
 func registerIntertx(p *Program) {
@@ -193,6 +203,15 @@ func (x *Exec) zzverifStub(name string, c *CallCtx) (Value, bool) {
 			x.Unsupported("CallArg(%d,%d) out of range", i, j)
 		}
 		x.store(unwrapIface(a[2]), x.Env.Calls[i].Args[j])
+		return nil, true
+	case "CallRet":
+		// CallRet(callIndex, retIndex, dst *T): copies the recorded result into dst
+		i := x.concreteInt(a[0], "call index")
+		j := x.concreteInt(a[1], "result index")
+		if i < 0 || i >= len(x.Env.Calls) || j >= len(x.Env.Calls[i].Rets) {
+			x.Unsupported("CallRet(%d,%d) out of range", i, j)
+		}
+		x.store(unwrapIface(a[2]), x.Env.Calls[i].Rets[j])
 		return nil, true
 	case "SameObject":
 		return BoolV{B.Bool(x.identityOf(a[0]) == x.identityOf(a[1]))}, true
